@@ -83,14 +83,16 @@ Inductive msg :=
     (* MsgAggregateExchangeRateVote; [parses] = ParseExchangeRateTuples succeeds (then [tuples] is
        the id of its result), [wl] = every parsed pair is in the WhitelistedPairs store *)
 | Delegate (operator delegate : nat)                 (* MsgDelegateFeedConsent *)
-| EditParams (sudoer : bool) (new_vp : Z)            (* MsgEditOracleParams; 0 = leave VotePeriod *)
+| EditParams (sudoer : bool) (new_vp : Z) (valid : bool)
+    (* MsgEditOracleParams; 0 = leave VotePeriod; [valid] = the merged params pass Params.Validate
+       (for the fields the model knows: SlashWindow >= the new VotePeriod) *)
 | SetStatus (val : nat) (st : vstat)                 (* environment: staking changed a validator *)
 | EndBlock                                           (* oracle.EndBlocker at this height *)
 | Malformed.                                         (* an address field is not valid bech32 *)
 
 Inductive reason :=
 | RFeeder | RNotActive | RNoPrevote | RPeriod | RParse | RUnknownPair | RHash
-| RBadHash | RNoValidator | RUnauthorized | RMalformed | ROther.
+| RBadHash | RNoValidator | RUnauthorized | RInvalidParams | RMalformed | ROther.
 
 Inductive outcome := Accepted | Rejected (rs : list reason).
 
@@ -155,8 +157,10 @@ Definition step (H : nat -> nat -> nat -> nat) (n : nat) (s : state) (h : Z) (m 
       | NoVal => (Rejected [RNoValidator], s)
       | _ => (Accepted, set_feeders s (upd (feeders s) op (Some d)))
       end
-  | EditParams sudoer nvp =>
-      if sudoer then (Accepted, if (nvp =? 0)%Z then s else set_vp s nvp)
+  | EditParams sudoer nvp valid =>
+      if sudoer
+      then if valid then (Accepted, if (nvp =? 0)%Z then s else set_vp s nvp)
+           else (Rejected [RInvalidParams], s)
       else (Rejected [RUnauthorized], s)
   | SetStatus v st => (Accepted, set_status s (upd (status s) v st))
   | EndBlock => (Accepted, if is_period_last (vp s) h then clear_period_end s h else s)
